@@ -2,12 +2,14 @@ package checks
 
 import (
 	"bytes"
+	"context"
 	"fmt"
 	"os"
 	"os/exec"
 	"os/signal"
 	"path/filepath"
 	"strconv"
+	"sync"
 	"sync/atomic"
 	"syscall"
 	"unsafe"
@@ -104,6 +106,88 @@ func C17Child(args []string) int {
 }
 
 type c17Stats struct{ runs, killed, errored, succeeded int64 }
+
+// countingCtx is a context that reports itself cancelled from its k-th observation (Err, Done or Deadline
+// call) on: "the caller gives up while the Store is under way", placed at every point where the store looks.
+type countingCtx struct {
+	context.Context
+	mu     sync.Mutex
+	n, k   int
+	done   chan struct{}
+	closed bool
+}
+
+func newCountingCtx(k int) *countingCtx {
+	return &countingCtx{Context: context.Background(), k: k, done: make(chan struct{})}
+}
+
+func (c *countingCtx) tick() bool {
+	c.mu.Lock()
+	defer c.mu.Unlock()
+	c.n++
+	if c.n > c.k && !c.closed {
+		c.closed = true
+		close(c.done)
+	}
+	return c.closed
+}
+
+func (c *countingCtx) Err() error {
+	if c.tick() {
+		return context.Canceled
+	}
+	return nil
+}
+
+func (c *countingCtx) Done() <-chan struct{} {
+	c.tick()
+	return c.done
+}
+
+// c17Cancelled: Store of a node under a context that turns cancelled at its k-th observation, for every k up
+// to the number of observations an undisturbed Store makes (at least 0..3, so that a store that starts to look
+// at its context is covered from the first look on). Whatever Store answers, the name holds nothing or the
+// complete node; nil means complete; a later Store repairs.
+func c17Cancelled(base string, acc *pairAcc, st *c17Stats) (observations int) {
+	cfg := &world.Config{Name: "persist/file"}
+	for _, size := range []int{1, 4097, 300000} {
+		payload := c17Payload(size)
+		name := ref.Name(payload)
+		probe := newCountingCtx(1 << 30)
+		if d, err := os.MkdirTemp(base, "c"); err == nil {
+			file.NewPersistForPath(d).Store(probe, name, payload)
+			os.RemoveAll(d)
+		}
+		if probe.n > observations {
+			observations = probe.n
+		}
+		for k := 0; k <= probe.n+3; k++ {
+			dir, err := os.MkdirTemp(base, "c")
+			if err != nil {
+				return
+			}
+			p := file.NewPersistForPath(dir)
+			cctx := newCountingCtx(k)
+			serr := p.Store(cctx, name, payload)
+			atomic.AddInt64(&st.runs, 1)
+			desc := []string{fmt.Sprintf("node of %d bytes; Store under a context that reports cancellation from its observation #%d on -> %v", size, k+1, serr)}
+			got, lerr := p.Load(ctx, name)
+			if lerr == nil && !bytes.Equal(got, payload) {
+				acc.add(cfg, "C17", []explore.Finding{{Sig: "C17|partial-node-exposed|context-cancelled-during-store", What: "after a Store whose context was cancelled on the way, Load returned incomplete bytes instead of not-found or the complete node", Detail: fmt.Sprintf("Load returned %d of %d bytes", len(got), size)}}, desc)
+			}
+			if serr == nil && (lerr != nil || !bytes.Equal(got, payload)) {
+				acc.add(cfg, "C17", []explore.Finding{{Sig: "C17|acknowledged-store-incomplete|context-cancelled-during-store", What: "a Store that reported success (its context was cancelled on the way) is not completely loadable", Detail: fmt.Sprintf("load err %v, %d of %d bytes", lerr, len(got), size)}}, desc)
+			}
+			serr2 := p.Store(ctx, name, payload)
+			got2, lerr2 := p.Load(ctx, name)
+			if serr2 != nil || lerr2 != nil || !bytes.Equal(got2, payload) {
+				acc.add(cfg, "C17", []explore.Finding{{Sig: "C17|re-store-does-not-repair|context-cancelled-during-store", What: "storing the same node again after a Store whose context was cancelled does not make it completely loadable", Detail: fmt.Sprintf("re-Store err %v; Load err %v, %d of %d bytes", serr2, lerr2, len(got2), size)}}, desc)
+			}
+			os.RemoveAll(dir)
+		}
+	}
+	return
+}
 
 func c17One(self, base string, size, limit int, mode string, acc *pairAcc, st *c17Stats) {
 	dir, err := os.MkdirTemp(base, "d")
@@ -234,6 +318,8 @@ func C17(run *report.Run) {
 	acc := &pairAcc{}
 	st := &c17Stats{}
 	parallelFor(len(jobs), func(i int) { c17One(self, base, jobs[i].size, jobs[i].limit, jobs[i].mode, acc, st) })
+	obs := c17Cancelled(base, acc, st)
+	run.Extra["context_observations_of_an_undisturbed_store"] = obs
 	acc.flush(run)
 	run.Evals = st.runs
 	run.Distinct = st.killed + st.errored
